@@ -140,6 +140,7 @@ static void
 focus(struct initparser *p)
 {
 	struct type *t;
+	unsigned long long off = 0;
 
 	switch (p->sub->type->kind) {
 	case TYPEARRAY:
@@ -154,12 +155,13 @@ focus(struct initparser *p)
 		if (!p->sub->u.mem)
 			error(&tok.loc, "cannot initialize object of opaque type with initializer list");
 		t = p->sub->u.mem->type;
+		off = p->sub->u.mem->offset;
 		break;
 	default:
 		fatal("internal error: init cursor has unexpected type");
 		return;  /* unreachable */
 	}
-	subobj(p, t, 0);
+	subobj(p, t, off);
 }
 
 static void
